@@ -41,6 +41,13 @@ HTML_DOCS = {
              '</fieldset><textarea id="t1" placeholder="p"></textarea><input id="i8" placeholder="q" value=""><input id="i9" type="hidden" disabled>'
              '<input id="i10" required readonly><progress id="pr"></progress></form><form id="f2"><button id="b2">x</button>'
              '<input id="i11" type="radio" name="g"></form><input id="i12" type="radio" name="g"><a id="a1" href="#">l</a><area id="ar"></body></html>',
+    'radio-order': '<html><body><form id="f1"><input id="a1" type="radio" name="g"><input id="a2" checked type="radio" name="g"></form>'
+                   '<form id="f2"><input id="b1" name="h" type="radio"><input id="b2" name="h" checked type="radio"></form>'
+                   '<form id="f3"><input id="c1" type="radio" name="k"><input id="c2" type="radio" checked name="k"></form>'
+                   '<form id="f4"><input id="d1" type="radio" name="m"><input id="d2" name="m" type="radio" checked></form>'
+                   '<form id="f5"><input id="e1" type="radio" name="n"><input id="e2" CHECKED="" TYPE="radio" NAME="n"><input id="e3" checked name="other" type="radio"></form>'
+                   '<input id="g1" type="radio" name="q"><p><input id="g2" checked name="q" type="radio"></p><input id="g3" checked type="checkbox" name="q">'
+                   '<form id="f6"><button id="s0" type="button">x</button><input id="s1" value="go" type="submit"><button id="s2" type="submit">y</button></form></body></html>',
     'ranges': '<body><input id="n1" type="number" min="1" max="10" value="5"><input id="n2" type="number" min="1" max="10" value="11">'
               '<input id="n3" max="5"><input id="n4" type="date" min="2000-01-01" value="1999-12-31"><input id="n5" type="date" min="2000-02-30" value="1999-12-31">'
               '<input id="n6" type="time" min="22:00" max="02:00" value="23:30"><input id="n7" type="time" min="22:00" max="02:00" value="12:00">'
@@ -259,6 +266,39 @@ def hub_sweep(args):
                 one = c.select_one(doc)
                 if (one is None) != (not per_el) or (one is not None and one is not per_el[0]):
                     fails.append(dict(kind='select_one', doc=dlabel, selector=q))
+                # match / closest / filter, also with the document object as the call target or as an item
+
+                def mt(e, scope=None):
+                    # (a query made on `scope` fixes :scope / & for every element it looks at; match(e) and filter(iterable) ask each
+                    #  item on its own)
+                    mm = cm.CSSMatch(c.selectors, e if scope is None else scope, c.namespaces, c.flags)
+                    return bool(S.matches(mm, mm.namespaces, False, e))
+                import bs4 as _bs4
+                els = elements_of(doc)
+                targets = ([doc] if isinstance(doc, _bs4.Tag) else []) + els[:3] + els[-3:]
+                for t in targets:
+                    evals += 1
+                    if bool(c.match(t)) != mt(t):
+                        fails.append(dict(kind='match(target) != matches', doc=dlabel, selector=q, target=t.name))
+                    ref = None
+                    cur = t
+                    while cur is not None:
+                        if isinstance(cur, _bs4.Tag) and mt(cur, t):
+                            ref = cur
+                            break
+                        cur = cur.parent
+                    if c.closest(t) is not ref:
+                        got_c = c.closest(t)
+                        fails.append(dict(kind='closest != nearest matching ancestor-or-self element', doc=dlabel, selector=q, target=t.name,
+                                          got=None if got_c is None else got_c.name, expected=None if ref is None else ref.name))
+                    kids = [k for k in t.contents if isinstance(k, _bs4.Tag) and mt(k, t)]
+                    if [id(x) for x in c.filter(t)] != [id(x) for x in kids]:
+                        fails.append(dict(kind='filter(tag) != matching element children', doc=dlabel, selector=q, target=t.name))
+                items = targets + [_bs4.NavigableString('x')]          # strings in the iterable are skipped
+                want_items = [x for x in items if isinstance(x, _bs4.Tag) and mt(x)]
+                evals += 1
+                if [id(x) for x in c.filter(items)] != [id(x) for x in want_items]:
+                    fails.append(dict(kind='filter(iterable) != matching Tag items in order', doc=dlabel, selector=q))
             except Exception as ex:
                 fails.append(dict(kind='matching-raises', doc=dlabel, selector=q, namespaces=nsname, error=f'{type(ex).__name__}: {ex}',
                                   trace=traceback.format_exc()[-600:]))
